@@ -50,6 +50,14 @@ pub fn axes(model: &RoomModel, extra_keys: &[Vec<u8>]) -> (Vec<Vec<u8>>, Vec<Str
         dates.push(d);
         dates.push(d + 1);
     }
+    // entries that the model does not know (accepted although they should not) start at their own date: the
+    // present and a far future date are always part of the grid
+    let now = crate::util::clock_get();
+    if now > 0 {
+        dates.push(now);
+        dates.push(now + 1);
+    }
+    dates.push(crate::util::T0 + 20_000 * crate::util::DAY);
     dates.sort();
     dates.dedup();
     (keys, ents, dates)
@@ -141,11 +149,14 @@ fn run_case<'a>(ctx: &'a Ctx, case: u64, acc: &'a mut Acc) -> CaseFut<'a> {
                 let n_groups = room.groups.len();
                 let g = rng.gen_range(0..n_groups);
                 let key = keys[rng.gen_range(1..keys.len())].clone();
-                let edit = if by_u {
+                // once U has been appointed admin it authors what only an admin can
+                let u_is_admin = room.model.is_admin(&keys[1], t);
+                let edit = if by_u && !u_is_admin {
                     RoomEdit::User(0, keys[rng.gen_range(2..keys.len())].clone(), rng.gen_bool(0.6))
                 } else {
                     match rng.gen_range(0..12) {
-                        0 => RoomEdit::Admin(key, rng.gen_bool(0.7)),
+                        // U is appointed admin fairly often
+                        0 => RoomEdit::Admin(if rng.gen_bool(0.6) { keys[1].clone() } else { key }, rng.gen_bool(0.8)),
                         1..=4 => RoomEdit::User(g, key, rng.gen_bool(0.55)),
                         5 => RoomEdit::UserAdmin(g, key, rng.gen_bool(0.6)),
                         6..=9 => {
@@ -256,7 +267,8 @@ fn run_case<'a>(ctx: &'a Ctx, case: u64, acc: &'a mut Acc) -> CaseFut<'a> {
                 },
             }
             // (d') an importer that skipped several versions pulls again
-            if let Some(old) = &old_importer {
+            if let (Some(old), true) = (&old_importer, rng.gen_bool(0.4)) {
+                acc.count("imports_several_versions_behind", 1);
                 let st = pull(old, &a, room.id, PullOpts::default()).await;
                 if let Some(e) = st.error {
                     acc.violation("C10/import-update/refused/several-versions-behind", witness(json!({"error": e}), &room, &log));
@@ -272,7 +284,7 @@ fn run_case<'a>(ctx: &'a Ctx, case: u64, acc: &'a mut Acc) -> CaseFut<'a> {
                     }
                 }
             }
-            if old_importer.is_none() || rng.gen_bool(0.3) {
+            if old_importer.is_none() || rng.gen_bool(0.15) {
                 old_importer = Some(f);
             }
         }
